@@ -9,6 +9,7 @@ mod c10;
 mod pg;
 mod pgm;
 mod pgref;
+mod parse;
 mod tabaut;
 mod aut;
 mod dom;
@@ -116,6 +117,7 @@ fn main() {
             "pg08" => pg::run("c08", tier, seed, &mut o),
             "pg11" => pg::run_c11(tier, seed, &mut o),
             "pgm" => pgm::run(tier, seed, &mut o),
+            "parse" => parse::run(tier, seed, &mut o),
             "tab03" => tabaut::run("c03", tier, seed, &mut o),
             "tab06" => tabaut::run("c06", tier, seed, &mut o),
             "tab09" => tabaut::run("c09", tier, seed, &mut o),
